@@ -197,7 +197,7 @@ OUT[-1]=OUT[-1].replace("Lemma inv_handshake_fail s s' :","Lemma inv_handshake_f
 lemma("inv_reject","(LReject id)", body)
 OUT[-1]=OUT[-1].replace("Lemma inv_reject s s' :","Lemma inv_reject id s s' :")
 
-# ---- admit: CTracked -> CRegistered, registry += id
+# ---- enter: CTracked -> CRegistered, registry += id
 adm=dict(PCSAME,
   nodup="rewrite ids_set_conn by reflexivity; exact (i_nodup s I)",
   ids="intros c0 Hc0; apply in_set_conn in Hc0; destruct Hc0 as (c1 & Hc1 & ->); pose proof (i_ids s I c1 Hc1); destruct (Nat.eqb (ct_id c1) id); cbn [register_conn ct_id]; lia",
@@ -211,12 +211,12 @@ adm=dict(PCSAME,
   done="intros c0 Hc0 Hd; apply in_set_conn in Hc0; destruct Hc0 as (c1 & Hc1 & ->); destruct (Nat.eqb (ct_id c1) id); [discriminate|exact (i_done s I c1 Hc1 Hd)]",
   exact=("intros Hp c0 Hc0 Hs; apply in_set_conn in Hc0; destruct Hc0 as (c1 & Hc1 & ->); destruct (Nat.eqb (ct_id c1) id) eqn:E1; "
          "[left; cbn [register_conn ct_id]; apply Nat.eqb_eq in E1; symmetry; exact E1|right; exact (i_exact s I Hp c1 Hc1 Hs)]"))
-lemma("inv_admit","(LAdmit id)","""  intros I H. cbn [lstep] in H. destruct (find_conn id (conns s)) as [c|] eqn:FC; try discriminate.
+lemma("inv_enter","(LEnter id)","""  intros I H. cbn [lstep] in H. destruct (find_conn id (conns s)) as [c|] eqn:FC; try discriminate.
   destruct (ct_st c) eqn:St; try discriminate. inversion H; subst; clear H.
   apply find_conn_in in FC. destruct FC as (C1 & C2).
   unfold serving in *.
   %s""" % skel(adm))
-OUT[-1]=OUT[-1].replace("Lemma inv_admit s s' :","Lemma inv_admit id s s' :")
+OUT[-1]=OUT[-1].replace("Lemma inv_enter s s' :","Lemma inv_enter id s s' :")
 
 # ---- finish: CRegistered -> CDone, registry -= id
 fin=conn_end(
